@@ -419,6 +419,70 @@ def rewrite_body(body, log, r14=None):
         return 'for %s in 0..%s.len() { let %s = %s[%s];' % (iv, vec, pat, vec, iv)
     body = re.sub(r'\bfor\s+(\([^)]*\))\s+in\s+([a-z_]\w*)\s*\{', r2_tuple, body)
 
+    # R16 -- `RECV.iter().for_each(|&PAT| { BODY });` -> `for i_fe in 0..RECV.len() { let PAT = RECV[i_fe]; BODY }`
+    # Semantic content: `Iterator::for_each` over a slice iterator calls the closure once per element,
+    # in index order, on a reference to the element; `|&PAT|` copies the element out (PAT binds Copy
+    # values).  Applied only when the exact shape matches and BODY has no `return` (which would leave
+    # the closure, not the function); R1 then turns the range loop into a `while`.
+    while True:
+        skip = _skip_map(body)
+        mo = None
+        for m in re.finditer(r'\b([A-Za-z_][\w.]*)\.iter\(\)\.for_each\(\|&(\([^()|]*\)|\w+)\|\s*\{', body):
+            if not skip[m.start()]:
+                mo = m
+                break
+        if mo is None:
+            break
+        b_open = mo.end() - 1
+        b_close = match_brace(body, b_open, skip)
+        tail = re.match(r'\s*\)\s*;', body[b_close + 1:])
+        inner = body[b_open + 1:b_close]
+        if not tail or re.search(r'\breturn\b', inner):
+            break
+        recv, pat = mo.group(1), mo.group(2)
+        body = (body[:mo.start()] + 'for i_fe in 0..%s.len() { let %s = %s[i_fe];' % (recv, pat, recv)
+                + inner + '}' + body[b_close + 1 + tail.end():])
+        log.append('R16')
+
+    # R2 (d) -- borrowing loop over a local Vec: `for X in V.iter() {` -> index loop, X = reference to the
+    # element (V is not consumed; `slice::Iter` yields `&V[0]`, `&V[1]`, ... in order)
+    def r2_iter(mo):
+        log.append('R2d')
+        pat, vec = mo.group(1), mo.group(2)
+        iv = 'i_' + pat
+        return 'for %s in 0..%s.len() { let %s = &%s[%s];' % (iv, vec, pat, vec, iv)
+    body = re.sub(r'\bfor\s+(\w+)\s+in\s+([a-z_]\w*)\.iter\(\)\s*\{', r2_iter, body)
+
+    # R17 -- `let (mut A, B): (T, U) = RECV.into_iter().partition(|X| { PBODY });` -> explicit loop.
+    # Semantic content: `Iterator::partition(f)` starts from two empty (`Default`) collections, takes the
+    # elements of the iterator in order, calls `f(&x)` and extends the first collection with x if it
+    # returned true, the second one otherwise.  `remove(0)` on the moved source yields the elements in
+    # that same order.  Applied only when the exact shape matches and PBODY (a block whose tail
+    # expression is the boolean) has no `return`.
+    while True:
+        skip = _skip_map(body)
+        mo = None
+        for m in re.finditer(r'\blet\s+\(\s*(?:mut\s+)?(\w+)\s*,\s*(?:mut\s+)?(\w+)\s*\)\s*:\s*\(\s*([\w:<>\[\]; ]+?)\s*,\s*([\w:<>\[\]; ]+?)\s*\)\s*=\s*'
+                             r'([A-Za-z_][\w.]*)\.into_iter\(\)\.partition\(\|\s*(\w+)\s*\|\s*\{', body):
+            if not skip[m.start()]:
+                mo = m
+                break
+        if mo is None:
+            break
+        b_open = mo.end() - 1
+        b_close = match_brace(body, b_open, skip)
+        tail = re.match(r'\s*\)\s*;', body[b_close + 1:])
+        inner = body[b_open + 1:b_close]
+        if not tail or re.search(r'\breturn\b', inner):
+            break
+        a, b, ta, tb, recv, x = mo.groups()
+        rep = ('let mut %s: %s = Vec::new(); let mut %s: %s = Vec::new(); let mut part_src__ = %s; '
+               'while part_src__.len() > 0 { let x_owned__ = part_src__.remove(0); '
+               'let keep__ = { let %s = &x_owned__;%s}; '
+               'if keep__ { %s.push(x_owned__); } else { %s.push(x_owned__); } }') % (a, ta, b, tb, recv, x, inner, a, b)
+        body = body[:mo.start()] + rep + body[b_close + 1 + tail.end():]
+        log.append('R17')
+
     # R10 -- drain(..)
     def r10(mo):
         log.append('R10')
